@@ -21,6 +21,7 @@ EXPLANATION = (
     "(4) ROUND-LAST on MIR: in the compiled parser's fraction carry chain f64::round may only be applied where the value "
     "becomes the integer microsecond count, never to an intermediate that is split further.  NOT decided: exact rational rounding "
     "of a fraction to the microsecond (float arithmetic)."
+    ' Also: every branch of the pure-Python parser that accepts a fractional component records it, and each compiled rank guard refuses the rank it assigns next (repeated designators).'
 )
 
 COMP = {"years": "years", "months": "months", "weeks": "weeks", "days": "remaining_days", "hours": "hours",
